@@ -246,9 +246,12 @@ var c12OverflowProgs = []string{
 	`co = coroutine.create(function(...) local a1, a2, a3, a4, a5, a6, a7, a8, a9, a10, a11, a12, a13, a14, a15, a16, a17, a18, a19, a20, a21, a22, a23, a24, a25, a26, a27, a28, a29, a30; return select('#', ...) end); local ok = pcall(function() return coroutine.resume(co, unpack(T, 1, n)) end); return ok`,
 	`local ok = xpcall(function() return unpack(T, 1, n) end, function(m) return m end); return ok`,
 	`local f = coroutine.wrap(function() local g = coroutine.wrap(function() return unpack(T, 1, n) end); return pcall(g) end); local ok = pcall(f); return ok`,
+	// the overflow happens while the frame of a tail-called function with 30 locals is being set up (its Pc is still 0)
+	`local function g(...) local a1, a2, a3, a4, a5, a6, a7, a8, a9, a10, a11, a12, a13, a14, a15, a16, a17, a18, a19, a20, a21, a22, a23, a24, a25, a26, a27, a28, a29, a30; return select('#', ...) end; local function f() return g(unpack(T, 1, n)) end; local ok = pcall(f); return ok`,
+	`local function g(...) local a1, a2, a3, a4, a5, a6, a7, a8, a9, a10, a11, a12, a13, a14, a15, a16, a17, a18, a19, a20, a21, a22, a23, a24, a25, a26, a27, a28, a29, a30; return select('#', ...) end; local ok = pcall(function() local r = g(unpack(T, 1, n)); return r end); return ok`,
 }
 
-//verif:harness prop=C12 tier=quick qparams=lo:105,hi:135 tparams=lo:90,hi:175 bounds="7 programs (unpack under pcall / xpcall, argument lists, inside wrapped and created coroutines, nested wraps, resume arguments); unpack(T, 1, n) with n symbolic in a window around the capacity ([105,135] quick, [90,175] thorough; the fixed registry has 128 slots, the growable one 128..160 by 16) over a 180-element table" maxpaths=6000 tmaxpaths=12000
+//verif:harness prop=C12 tier=quick qparams=lo:105,hi:135 tparams=lo:90,hi:175 bounds="9 programs (unpack under pcall / xpcall, argument lists, inside wrapped and created coroutines, nested wraps, resume arguments, frames of called and tail-called functions being set up); unpack(T, 1, n) with n symbolic in a window around the capacity ([105,135] quick, [90,175] thorough; the fixed registry has 128 slots, the growable one 128..160 by 16) over a 180-element table" maxpaths=6000 tmaxpaths=12000
 func H_C12_regoverflow() {
 	prog := c12OverflowProgs[VChoice(len(c12OverflowProgs))]
 	opt := Options{RegistrySize: 128}
